@@ -585,8 +585,50 @@ func TestVFC11PublicAndValid(t *testing.T) {
 	if kerr != nil {
 		t.Fatalf("VERIF-INCONCLUSIVE session: %v", kerr)
 	}
+	// several more sessions are in the database at the restart, one of them
+	// about to expire: each is read back with its own expiry
+	var others []string
+	for i := 0; i < 6; i++ {
+		o, oerr := vfNewSession(false)
+		if oerr != nil {
+			t.Fatalf("VERIF-INCONCLUSIVE session: %v", oerr)
+		}
+		others = append(others, o)
+	}
+	short, serr := vfNewSession(false)
+	if serr != nil {
+		t.Fatalf("VERIF-INCONCLUSIVE session: %v", serr)
+	}
+	func() {
+		a := globalContext.auth
+		a.lock.Lock()
+		ss := a.sessions[short]
+		ss.expire = uint32(time.Now().Unix()) + 2
+		a.lock.Unlock()
+		key := make([]byte, len(short)/2)
+		_, _ = fmt.Sscanf(short, "%x", &key)
+		a.storeSession(key, ss)
+	}()
 	if rerr := vfRestartAuth(); rerr != nil {
 		t.Fatalf("VERIF-INCONCLUSIVE restarting the authentication module: %v", rerr)
+	}
+	time.Sleep(3200 * time.Millisecond)
+	withTok := func(tok string) func(*http.Request) {
+		return func(r *http.Request) { r.AddCookie(&http.Cookie{Name: sessionCookieName, Value: tok}) }
+	}
+	vfC11.Eval()
+	vfC11.Class("restart:session_expired_since")
+	vfC11.Nontrivial("restart|expired_since")
+	rec = do("GET", "/control/status", "", "", withTok(short))
+	if v := vfUnauthVerdict(rec); v != "forbidden" {
+		t.Fatalf("a session that was in the database at the restart and has expired since still authenticates: %s", v)
+	}
+	for _, o := range others {
+		rec = do("GET", "/control/status", "", "", withTok(o))
+		vfC11.Eval()
+		if rec.Code != http.StatusOK {
+			t.Fatalf("one of several unexpired sessions in the database at the restart is refused afterwards: status %d", rec.Code)
+		}
 	}
 	vfC11.Eval()
 	vfC11.Class("restart:logged_out_cookie")
